@@ -65,44 +65,46 @@ int hx_in_child(void (*fn)(void *arg, FILE *o), void *arg, char *outbuf, size_t 
     return 2;
 }
 
-static const hx_op *const tables[] = { ops_c14, ops_c16, ops_c15, ops_c03, ops_c04, ops_c09, ops_c01, ops_c18, ops_c17, ops_c20, ops_c10, ops_c05, ops_c13, ops_c08, NULL };
+static const hx_op *const tables[] = { ops_c14, ops_c16, ops_c15, ops_c03, ops_c04, ops_c09, ops_c01, ops_c18, ops_c17, ops_c20, ops_c10, ops_c05, ops_c13, ops_c08, ops_c19, NULL };
 
-int main(void) {
-    char *line = NULL; size_t cap = 0; ssize_t n;
-    char **argv = NULL; size_t argcap = 0;
-    if (sodium_init() < 0) { fprintf(stderr, "sodium_init failed\n"); return 3; }
-    setvbuf(stdout, NULL, _IOLBF, 1 << 16);   /* line buffered: on a crash every completed op has been reported */
-    while ((n = getline(&line, &cap, stdin)) > 0) {
-        int argc = 0, handled = 0; char *save, *tok; size_t t;
-        while (n > 0 && (line[n - 1] == '\n' || line[n - 1] == '\r')) line[--n] = 0;
-        for (tok = strtok_r(line, " ", &save); tok; tok = strtok_r(NULL, " ", &save)) {
-            if ((size_t) argc + 1 >= argcap) { argcap = argcap ? argcap * 2 : 16; argv = (char **) realloc(argv, argcap * sizeof *argv); }
-            argv[argc++] = tok;
-        }
-        if (argc == 0) { puts("empty"); continue; }
-        if (strcmp(argv[0], "rt.flags") == 0) {
-            printf("sse2=%d sse3=%d ssse3=%d sse41=%d avx=%d avx2=%d avx512f=%d pclmul=%d aesni=%d rdrand=%d gcm=%d\n",
-                   sodium_runtime_has_sse2(), sodium_runtime_has_sse3(), sodium_runtime_has_ssse3(), sodium_runtime_has_sse41(),
-                   sodium_runtime_has_avx(), sodium_runtime_has_avx2(), sodium_runtime_has_avx512f(), sodium_runtime_has_pclmul(),
-                   sodium_runtime_has_aesni(), sodium_runtime_has_rdrand(), crypto_aead_aes256gcm_is_available());
-            continue;
-        }
-        if (strncmp(argv[0], "aead.", 5) == 0) {
-            int r = hx_aead(argv[0], argc - 1, argv + 1, stdout);
-            if (r <= 0) { if (r < 0) fputs("bad-args", stdout); fputc('\n', stdout); continue; }
-        }
-        for (t = 0; tables[t] && !handled; t++) {
-            const hx_op *op;
-            for (op = tables[t]; op->name; op++) {
-                if (strcmp(op->name, argv[0]) == 0) {
-                    if (op->fn(argc - 1, argv + 1, stdout) != 0) fputs("bad-args", stdout);
-                    fputc('\n', stdout);
-                    handled = 1; break;
-                }
+/* run one op line (modified in place by strtok) and print exactly one line to `o` */
+void hx_dispatch(char *line, FILE *o) {
+    char *argv[64]; int argc = 0, handled = 0; char *save, *tok; size_t t;
+    size_t n = strlen(line);
+    while (n > 0 && (line[n - 1] == '\n' || line[n - 1] == '\r')) line[--n] = 0;
+    for (tok = strtok_r(line, " ", &save); tok && argc < 63; tok = strtok_r(NULL, " ", &save)) argv[argc++] = tok;
+    if (argc == 0) { fputs("empty\n", o); return; }
+    if (strcmp(argv[0], "rt.flags") == 0) {
+        fprintf(o, "sse2=%d sse3=%d ssse3=%d sse41=%d avx=%d avx2=%d avx512f=%d pclmul=%d aesni=%d rdrand=%d gcm=%d\n",
+               sodium_runtime_has_sse2(), sodium_runtime_has_sse3(), sodium_runtime_has_ssse3(), sodium_runtime_has_sse41(),
+               sodium_runtime_has_avx(), sodium_runtime_has_avx2(), sodium_runtime_has_avx512f(), sodium_runtime_has_pclmul(),
+               sodium_runtime_has_aesni(), sodium_runtime_has_rdrand(), crypto_aead_aes256gcm_is_available());
+        return;
+    }
+    if (strncmp(argv[0], "aead.", 5) == 0) {
+        int r = hx_aead(argv[0], argc - 1, argv + 1, o);
+        if (r <= 0) { if (r < 0) fputs("bad-args", o); fputc('\n', o); return; }
+    }
+    for (t = 0; tables[t] && !handled; t++) {
+        const hx_op *op;
+        for (op = tables[t]; op->name; op++) {
+            if (strcmp(op->name, argv[0]) == 0) {
+                if (op->fn(argc - 1, argv + 1, o) != 0) fputs("bad-args", o);
+                fputc('\n', o);
+                handled = 1; break;
             }
         }
-        if (!handled) puts("bad-op");
     }
+    if (!handled) fputs("bad-op\n", o);
+}
+
+#ifndef HX_NO_MAIN
+int main(void) {
+    char *line = NULL; size_t cap = 0; ssize_t n;
+    if (sodium_init() < 0) { fprintf(stderr, "sodium_init failed\n"); return 3; }
+    setvbuf(stdout, NULL, _IOLBF, 1 << 16);   /* line buffered: on a crash every completed op has been reported */
+    while ((n = getline(&line, &cap, stdin)) > 0) hx_dispatch(line, stdout);
     fflush(stdout);
     return 0;
 }
+#endif
